@@ -69,6 +69,12 @@ def obligations():
             quick_pre="total <= 2 and chunk <= 2 and not b2", timeout_thorough=2400),
     ]
     o += [
+        Obl("C02.pdb.load_frame", "xh", "harness.c02", "pdb_load_frame", ["mdtraj.formats.pdb.pdbfile.load_pdb"], "total<=5 models, every frame index in [-total, total), with / without every non-empty atom subset",
+            "load_pdb(frame=i, atom_indices=) is frame i of the full load restricted to the atoms: coordinates, time stamp, cell, topology (PDBTrajectoryFile stubbed by its parsed content)", 200),
+        Obl("C02.pdb.load_stride", "xh", "harness.c02", "pdb_load_stride", ["mdtraj.formats.pdb.pdbfile.load_pdb"], "total<=6, stride None or 1..4, with / without atom subsets",
+            "load_pdb(stride=s, atom_indices=) == full[::s] restricted to the atoms, times included", 200),
+    ]
+    o += [
         Obl("C02.iterload.chunk0", "xh", "harness.c02", "iterload_chunk0", ["mdtraj.core.trajectory.iterload"], "total<=6, stride<=3, every skip, every atom subset of 3 or none",
             "iterload(chunk=0) yields full[skip::stride] with the requested atoms (md.load stubbed by its contract)", 120, quick_pre="total <= 4"),
         Obl("C02.iterload.pdb", "xh", "harness.c02", "iterload_pdb", ["mdtraj.core.trajectory.iterload"], "total<=6, chunk<=4, stride<=3, every skip",
@@ -81,5 +87,5 @@ MANIFEST_INFO = {
     "engine": "xh",
     "technique": "bounded symbolic execution of the real Python readers, iterload and load_<fmt> (CrossHair + z3) over in-memory files; strided chunk read as an inductive step",
     "text": "Within total<=6 frames, stride<=4, chunk<=6, all skips and all atom subsets of 3-4 atoms, the solver explores every path of the real reader code and compares frames, atoms, time and cell with Python slicing of the full load.",
-    "note": "Trusted: CrossHair/z3, in-memory back ends. Not covered: Cython readers (xtc/trr/dcd/dtr), gsd, PDB parsing, multi-file load() (see C03 join), sizes beyond the bounds.",
+    "note": "Trusted: CrossHair/z3, in-memory back ends. Not covered: Cython readers (xtc/trr/dcd/dtr), gsd, PDB record parsing (load_pdb's frame/stride/atom selection IS covered), multi-file load() (see C03 join), sizes beyond the bounds.",
 }
